@@ -242,7 +242,10 @@ def worker(spec, out):
                     flags.append("private")
                 prev = [s for s in steps if s[0] == "def" and s[1] == nskey and s[2] == name]
                 if prev:
-                    flags = list(prev[-1][3])  # a redefinition keeps the Var's flags
+                    # a redefinition keeps the Var's flags, or marks a so far plain Var ^:redef / ^:dynamic (code compiled
+                    # before the redefinition has already referred to it; reads compiled afterwards must follow the new marking)
+                    gained = [f for f in flags if f in ("redef", "dynamic")] if rnd.random() < 0.5 else []
+                    flags = list(prev[-1][3]) + [f for f in gained if f not in prev[-1][3]]
                 steps.append(("def", nskey, name, tuple(flags)))
                 defined.add((nskey, name))
             elif t < 0.55:
@@ -284,6 +287,10 @@ def worker(spec, out):
             [("def", "A", "v", ()), ("alter", "A", "v"), ("def", "A", "v", ()), ("alter", "A", "v")],
             [("def", "A", "*star*", ("dynamic",)), ("alter", "A", "*star*"), ("alias", "B", "al", "A")],
             [("def", "B", "str", ()), ("alias", "A", "al", "B"), ("def", "A", "str", ())],
+            [("def", "A", "v", ()), ("def", "A", "v", ("redef",)), ("alter", "A", "v")],
+            [("def", "A", "v", ()), ("def", "A", "v", ("dynamic",)), ("alter", "A", "v")],
+            [("def", "B", "v", ()), ("alias", "A", "al", "B"), ("def", "B", "v", ("redef",)), ("alter", "B", "v"), ("def", "B", "v", ("redef",)), ("alter", "B", "v")],
+            [("def", "B", "w", ()), ("refer", "A", "B", "w", None), ("def", "B", "w", ("dynamic",)), ("alter", "B", "w")],
         ]
         for steps in fixed:
             run_history(steps)
